@@ -675,9 +675,9 @@ impl Model {
                     if alo > e.hard_l * NS {
                         out.viols.push(Viol {
                             rule: "m2_expired",
-                            sig: format!("{}|{}|decided_by={}|preserve={}", if e.negative { "neg" } else { "pos" }, shape_class(&case.shape), e.decided_by, case.preserve),
+                            sig: format!("{}|decided_by={}|preserve_intermediates={}", if e.negative { "neg" } else { "pos" }, e.decided_by, case.preserve),
                             expected: json!({"upstream_query_for": rw::show(name), "entry_inserted_ms": [e.ins_lo / MS, e.ins_hi / MS], "L_s": e.hard_l, "age_at_least_ms": alo / MS}),
-                            observed: json!("answered from the cache without asking upstream"),
+                            observed: json!({"upstream_queries_for_this_name": 0, "what": "answered from the cache without asking upstream"}),
                         });
                     } else if ahi < e.hard_l * NS {
                         out.counters.push("m2/served_while_certainly_live".into());
@@ -912,7 +912,7 @@ impl Running {
         }
         out.counters.push(format!("m2/result/{}/{}", if fresh { "fresh" } else { "cached" }, kind_obs));
         match (&w, &res) {
-            (Walk::Pos { hard, alias, .. }, Res::Ok { answers, valid_until_off }) => {
+            (Walk::Pos { hard, alias, decided_by, .. }, Res::Ok { answers, valid_until_off }) => {
                 if fresh {
                     for (t, tag, ttl) in answers {
                         let Some(upttl) = self.tag_ttl_max.get(tag) else {
@@ -938,7 +938,7 @@ impl Running {
                     if *valid_until_off > hi as i128 + (*hard * NS) as i128 {
                         out.viols.push(Viol {
                             rule: "m2_valid_until",
-                            sig: format!("fresh|{}|preserve={}", shape_class(&self.case.shape), self.case.preserve),
+                            sig: format!("decided_by={}|preserve_intermediates={}", decided_by, self.case.preserve),
                             expected: json!({"valid_until_at_most_ms": (hi + hard * NS) / MS, "L_s": hard}),
                             observed: res.to_json(),
                         });
@@ -974,7 +974,7 @@ impl Running {
                     if *valid_until_off > (e.ins_hi + e.hard_l * NS + NS) as i128 {
                         out.viols.push(Viol {
                             rule: "m2_valid_until",
-                            sig: format!("cached|{}|preserve={}", shape_class(&self.case.shape), self.case.preserve),
+                            sig: format!("decided_by={}|preserve_intermediates={}", e.decided_by, self.case.preserve),
                             expected: json!({"valid_until_at_most_ms": (e.ins_hi + e.hard_l * NS + NS) / MS, "L_s": e.hard_l}),
                             observed: res.to_json(),
                         });
